@@ -13,7 +13,7 @@ import (
 	"verif/harness/stat"
 )
 
-const C05Rule = "Byte strings fed to ReadFrom and ReadBlock of every struct of the registry (request/response packets included) and to tup.UniAttribute.Decode: (random) uniform bytes and head-biased bytes; (mutant) valid encodings with bit flips, truncation, embedded lengths rewritten to -1/0x7fffffff/0x80000000/remaining+-1, type-nibble rewrites, spliced foreign fields; (shape) nesting bombs of StructBegin / LIST-of-LIST / MAP-of-MAP of depth 10^2..10^6 as unknown and known members, giant announced counts with tiny bodies, array lists longer than the array. Oracle: returns value or error - no panic, terminates (wall <= 5 s + 1 us/byte, re-run twice before it counts), bytes allocated <= 4096*len(input)+64 KiB. Non-trivial = input not rejected at its first head byte: decoding consumed >= 3 fields before the verdict (observed as: strict scanner finds >= 3 complete leading fields), or depth >= 8, or an announced length > remaining. Distinct = distinct (struct, entry point, bytes)."
+const C05Rule = "Byte strings fed to ReadFrom and ReadBlock of every struct of the registry (request/response packets included) and to tup.UniAttribute.Decode: (random) uniform bytes and head-biased bytes; (mutant) valid encodings with bit flips, truncation, embedded lengths rewritten to -1/0x7fffffff/0x80000000/remaining+-1, type-nibble rewrites, spliced foreign fields; (shape) nesting bombs of StructBegin / LIST-of-LIST / MAP-of-MAP of depth 10^2..10^6 as unknown and known members, giant announced counts with tiny bodies, array lists longer than the array; (pinned hostile-site) per struct the all-members-written encoding of its default value, canonical and with byte vectors in LIST form, with each embedded count in turn set to 2^31-1, 2^28, -1, -2^31; mutants are also derived from LIST-form-byte-vector and widened-integer encodings. Oracle: returns value or error - no panic, terminates (wall <= 5 s + 1 us/byte, re-run twice before it counts), bytes allocated <= 4096*len(input)+64 KiB. Non-trivial = input not rejected at its first head byte: decoding consumed >= 3 fields before the verdict (observed as: strict scanner finds >= 3 complete leading fields), or depth >= 8, or an announced length > remaining. Distinct = distinct (struct, entry point, bytes)."
 
 // Seg is one run of a multi-segment hostile input: Head, then Unit repeated Rep times.
 type Seg struct {
@@ -172,6 +172,49 @@ func (r *Registry) NegativeLengths() map[string]C05Case {
 	return out
 }
 
+// HostileSites: pinned family over every struct of the registry (at most 80): the encoding
+// of its default value with every member written (empty containers still announce a count)
+// in canonical form and with byte vectors in LIST form, and every embedded length/count in
+// turn rewritten to 2^31-1, 2^28, -1 and -2^31. Reaches each typed container reader of
+// each struct - including legal forms the framework's writers never produce - with a
+// hostile count.
+func (r *Registry) HostileSites() map[string]C05Case {
+	out := map[string]C05Case{}
+	keys := r.Keys
+	if len(keys) > 80 {
+		keys = keys[:80]
+	}
+	for _, key := range keys {
+		sv := rc.DefaultStruct(r.Schema.Structs[key])
+		for _, lfb := range []bool{false, true} {
+			enc := rc.Enc{RecordSites: true, KeepDefaults: true, ListForBytes: lfb}
+			enc.StructBody(sv)
+			for si, s := range enc.Sites {
+				for _, v := range []int64{0x7fffffff, 1 << 28, -1, -0x80000000} {
+					var repl []byte
+					switch s.Kind {
+					case 0:
+						continue
+					case 1:
+						repl = []byte{byte(v >> 24), byte(v >> 16), byte(v >> 8), byte(v)}
+					default:
+						var le rc.Enc
+						le.Int(v, 0)
+						repl = le.Buf
+					}
+					in := append([]byte{}, enc.Buf[:s.Off]...)
+					in = append(in, repl...)
+					in = append(in, enc.Buf[s.End:]...)
+					for _, block := range []bool{false, true} {
+						out[fmt.Sprintf("%s/listForBytes=%v/site%d/len=%d/block=%v", key, lfb, si, v, block)] = C05Case{Struct: key, Block: block, Kind: "hostile-site", In: in, NT: true}
+					}
+				}
+			}
+		}
+	}
+	return out
+}
+
 func (r *Registry) RunC05Case(c C05Case) *stat.Failure {
 	in := c.input()
 	return guard("C05 "+c.Struct, func() *stat.Failure {
@@ -238,6 +281,10 @@ func (r *Registry) drawC05(rt *rapid.T) C05Case {
 	case "mutant":
 		sv := rc.DrawStruct(rt, st, rc.Limits{MaxStr: 20, MaxElems: 4}, 0, "v")
 		enc := rc.Enc{RecordSites: true, KeepDefaults: rapid.Bool().Draw(rt, "keep")}
+		// legal but never produced by the framework's own writers: byte vectors in LIST form
+		// (their count is then a length site of its own) and integers wider than necessary
+		enc.ListForBytes = rapid.IntRange(0, 2).Draw(rt, "listForBytes") == 0
+		enc.Widen = rapid.IntRange(0, 4).Draw(rt, "widen") == 0
 		enc.StructBody(sv)
 		b := append([]byte{}, enc.Buf...)
 		nm := rapid.IntRange(1, 3).Draw(rt, "nmut")
@@ -406,6 +453,13 @@ func (r *Registry) RunC05(t *testing.T, st *stat.Stats, quick, thorough int) {
 			}, r.Name, "pinned-negative-length")
 		}
 		stat.Pinned(t, st, "c05-negative-lengths-"+r.Name, negs, r.RunC05Case)
+		sites := r.HostileSites()
+		for name, c := range sites {
+			st.Case([]byte("site"+name+r.Name), true, func() any {
+				return map[string]any{"pinned": name, "bytes": fmt.Sprintf("% x", clip(c.In))}
+			}, r.Name, "pinned-hostile-site")
+		}
+		stat.Pinned(t, st, "c05-hostile-sites-"+r.Name, sites, r.RunC05Case)
 	}
 	stat.Check(t, st, "c05-"+r.Name, stat.N(quick, thorough), r.drawC05, func(c C05Case) *stat.Failure {
 		in := c.input()
